@@ -53,7 +53,9 @@ def make_factory(stop, base_constants=False, two=False, grid=(1.0, 1.0)):
                                                                "high": {"constants": {"k": 5.0}}})
         if two:
             b.register_scenario_manager({"sm2": {"model": model}})
-            b.register_scenarios(scenario_manager="sm2", scenarios={"base": {"constants": {"k": K2}}, "high": {"constants": {"k": K2}}})
+            # the shadow manager also has a scenario that the first manager does not know: sessions name it too
+            b.register_scenarios(scenario_manager="sm2", scenarios={"base": {"constants": {"k": K2}}, "high": {"constants": {"k": K2}},
+                                                                    "only2": {"constants": {"k": K2}}})
         return b
     return factory
 
@@ -160,7 +162,7 @@ class Srv:
         inst.destroy = destroy
 
     def begin(self, i, sc, kv):
-        body = {"scenario_managers": ["sm", "sm2"] if self.two else ["sm"], "scenarios": [sc], "equations": ["s", "f", "k"]}
+        body = {"scenario_managers": ["sm", "sm2"] if self.two else ["sm"], "scenarios": [sc, "only2"] if self.two else [sc], "equations": ["s", "f", "k"]}
         if kv > 0:
             body["settings"] = self.settings(sc, kv)
         return self.req("POST", "/%s/begin-session" % self.uid(i), body)
